@@ -273,6 +273,8 @@ struct Dumper {
         if (auto md = dyn_cast<CXXMethodDecl>(fd)) {
           o["cls"] = qname(md->getParent());
           if (md->isVirtual()) o["virtual"] = true;
+          if (md->isConst()) o["mconst"] = true;
+          if (md->isStatic()) o["mstatic"] = true;
         }
         if (fd->isTemplateInstantiation()) {
           if (auto ta = fd->getTemplateSpecializationArgs()) {
